@@ -82,6 +82,33 @@ def _supported(node: ast.AST) -> Optional[List[Tuple[str, str, int, str]]]:
     return out
 
 
+def _dicts_keyed_by(tree: ast.AST, keys: List[str], values_ok=None) -> List[Tuple[str, List[Tuple[str, str]]]]:
+    """[(name, rows)] of every dict literal assigned to a name anywhere in `tree` whose string keys cover `keys` (the
+    native type names) and whose values `_str_dict` can render — whatever the table is called and wherever it stands
+    (module level, class level, inside a function)"""
+    out = []
+    want = set(keys)
+    for node in ast.walk(tree):
+        if isinstance(node, ast.Assign) and len(node.targets) == 1:
+            tgt, val = node.targets[0], node.value
+        elif isinstance(node, ast.AnnAssign) and node.value is not None:
+            tgt, val = node.target, node.value
+        else:
+            continue
+        rows = _str_dict(val)
+        if rows is None or not want <= {k for k, _ in rows}:
+            continue
+        if values_ok is not None and not all(values_ok(val.values[i]) for i in range(len(rows))):
+            continue
+        name = tgt.id if isinstance(tgt, ast.Name) else getattr(tgt, "attr", "?")
+        out.append((name, rows))
+    return out
+
+
+def _is_ctypes_attr(v: ast.AST) -> bool:
+    return isinstance(v, ast.Attribute) and isinstance(v.value, ast.Name) and v.value.id == "ctypes"
+
+
 def _import_fallback(repo: Path, modname: str):
     src = str(repo / "src")
     sys.path.insert(0, src)
@@ -91,6 +118,29 @@ def _import_fallback(repo: Path, modname: str):
         return importlib.import_module(modname)
     finally:
         sys.path.remove(src)
+
+
+def _measure_parser_ctypes(repo: Path, supported) -> Optional[List[Tuple[str, str]]]:
+    """last resort for the parser's ctypes table: ask `Parser.get_ctype_cls` itself — a one-field struct per native
+    type, and the name of a sized ctypes type that IS the class it chose"""
+    import ctypes
+    sized = ["c_char", "c_byte", "c_ubyte", "c_int8", "c_uint8", "c_int16", "c_uint16", "c_int32", "c_uint32", "c_int64",
+             "c_uint64", "c_float", "c_double"]
+    try:
+        P = _import_fallback(repo, "pyrtma.parser")
+        out = []
+        for name in sorted({n for _, n, _, _ in supported}):
+            nt = next(v for v in P.supported_types.values() if v.name == name)
+            s = P.SDF("", "", "Probe", src=Path("probe.yaml"))
+            s.fields.append(P.Field(name="f", type_name=name, type_obj=nt))
+            ct = P.Parser().get_ctype_cls(s)._fields_[0][1]
+            nm = next((a for a in sized if getattr(ctypes, a) is ct), None)
+            if nm is None:
+                return None
+            out.append((name, nm))
+        return out
+    except Exception:  # noqa: BLE001
+        return None
 
 
 def read_tables(repo: Path) -> Dict[str, Any]:
@@ -116,6 +166,26 @@ def read_tables(repo: Path) -> Dict[str, Any]:
             mx = node.value
     except OSError:
         pass
+    # A table that is not where / called what it used to be is looked for by its *shape*: the dict literal keyed by the
+    # native type names (`NativeType.name` for the parser's ctypes table, the keys of `supported_types` for the back ends).
+    # python.py has two such tables: the one whose values are "ctypes.*" strings and the one with descriptor class names.
+    if t["supported"] is not None:
+        keys = [k for k, _, _, _ in t["supported"]]
+        names = sorted({n for _, n, _, _ in t["supported"]})
+        if t["parserCtypes"] is None:
+            c = _dicts_keyed_by(ptree, names, _is_ctypes_attr)
+            if len(c) == 1:
+                t["parserCtypes"] = c[0][1]
+        for key, file in (("pyCtypes", "python.py"), ("pyDesc", "python.py"), ("c99", "c99.py"), ("js", "javascript.py"),
+                          ("matlab", "matlab.py")):
+            if t[key] is not None:
+                continue
+            c = _dicts_keyed_by(ast.parse((src / "compilers" / file).read_text()), keys)
+            if file == "python.py":
+                is_ct = lambda rows: all(v.startswith("ctypes.") for _, v in rows)  # noqa: E731
+                c = [x for x in c if is_ct(x[1]) == (key == "pyCtypes")]
+            if len(c) == 1:
+                t[key] = c[0][1]
     missing = [k for k, v in t.items() if v is None]
     t["maxMessageTypes"] = mx if mx is not None else sys.maxsize   # the parser's own fallback
     if missing:
@@ -131,7 +201,10 @@ def read_tables(repo: Path) -> Dict[str, Any]:
                 d = getattr(m, var)
                 t[key] = [(k, v if isinstance(v, str) else repr(v)) for k, v in d.items()]
         if t.get("parserCtypes") is None:
-            raise RuntimeError("Parser.get_ctype_cls.type_map is not a dict literal any more")
+            t["parserCtypes"] = _measure_parser_ctypes(repo, t["supported"])
+        if t.get("parserCtypes") is None:
+            raise RuntimeError("the ctypes table of Parser.get_ctype_cls was not found (no dict literal keyed by the "
+                               "native type names with ctypes.* values) and could not be measured")
     return t
 
 
